@@ -119,6 +119,12 @@ func runC09(c *Ctx) {
 	}
 
 	// ---- R3 -------------------------------------------------------------------------------------
+	c.Rule("R6", "accessor agreement for the throttle state (provider slash meter and replenish candidate; consumer slash record, pending packet queue and its index)", 10)
+	checkAccessorAgreement(c, "pk", "SlashMeterKey", "SlashMeterReplenishTimeCandidateKey")
+	checkAccessorAgreement(c, "ck", "SlashRecordKey", "PendingDataPacketsV1Key", "PendingPacketsIndexKey")
+	checkSetterValues(c, "pk", []string{"SlashMeter"})
+	checkSetterValues(c, "ck", []string{"SlashRecord"})
+
 	c.Rule("R3", "provider BeginBlock runs BeginBlockCIS on every success path; BeginBlockCIS runs CheckForSlashMeterReplenishment", 2)
 	if f := c.Fn("provider.AppModule.BeginBlock"); f != nil {
 		if cis := c.one(f, false, "pk.Keeper.BeginBlockCIS"); cis != nil {
